@@ -333,4 +333,8 @@ def known(case, obs, msg):
     # day 29-31 also covers other stored periods of that variable whose (clipped) end is the same
     if msg.startswith("retained:") and _late_start(case):
         return "purge-contains-clipped-period"
+    # F33 (open): an ETERNITY variable with a formula keeps one cache slot for all periods
+    if (msg.startswith("order:") or msg.startswith("fresh:")) and any(
+            v["unit"] == "eternity" and v["formulas"] for v in case["sys"]["vars"]):
+        return "eternal-variable-period-dependent-formula"
     return None
